@@ -468,6 +468,11 @@ congruence<Number> congruence<Number>::Shl(const congruence<Number> &o) const {
   else if (this->is_top() || o.is_top())
     return congruence<Number>::top();
   else {
+    // As interval::Shl does, give up on huge shifts instead of
+    // building 2^k: a shift by 2^31 would need a 256MB number.
+    if (o.m_b > 128 || o.m_a > 128) {
+      return congruence<Number>::top();
+    }
     if (o.m_a == 0) { // singleton
       if (o.m_b < 0) {
         return bottom();
